@@ -109,6 +109,8 @@ class Prog:
         self.threads = {}       # thread object name -> function name
         self.excvars = set()    # names that hold a stored exception (sys.exc_info(), `except ... as e`, copies): value = exception kind
         self.sources = set()    # names bound to iter(<source>)
+        self.sems = {}          # semaphore / lock name -> initial value (int or AST over the parameters)
+        self.events = set()     # threading.Event names
         self.desc = {}
 
     def newloc(self, thread, desc=''):
@@ -156,6 +158,22 @@ class Compiler:
     # ------------------------------------------------------------------ expressions (pure)
     def name(self, n):
         return self.subst.get(n, n)
+
+    def is_bool_expr(self, e):
+        """does the pure expression e denote a truth value (decides the sort of the variable it is assigned to)"""
+        if isinstance(e, ast.Constant):
+            return isinstance(e.value, bool)
+        if isinstance(e, (ast.Compare, ast.BoolOp)):
+            return True
+        if isinstance(e, ast.UnaryOp) and isinstance(e.op, ast.Not):
+            return True
+        if isinstance(e, ast.IfExp):
+            return self.is_bool_expr(e.body) and self.is_bool_expr(e.orelse)
+        if isinstance(e, ast.Name):
+            return self.p.vars.get(self.name(e.id), ('int', 0))[0] == 'bool'
+        if isinstance(e, ast.Call) and isinstance(e.func, ast.Attribute):
+            return e.func.attr in ('empty', 'full', 'is_alive', 'is_set', 'isSet', 'locked')
+        return False
 
     def is_source(self, n):
         n = self.name(n)
@@ -236,6 +254,10 @@ class Compiler:
             if isinstance(f, ast.Attribute) and isinstance(f.value, ast.Name) and self.name(f.value.id) in self.p.threads and f.attr == 'is_alive':
                 tf = self.p.threads[self.name(f.value.id)]
                 return z3.And(S[f'${tf}.started'], z3.Not(z3.Or([S[f'pc.{tf}'] == l for l in self.end_of[tf]])))
+            if isinstance(f, ast.Attribute) and isinstance(f.value, ast.Name) and self.name(f.value.id) in self.p.events and f.attr in ('is_set', 'isSet'):
+                return S[self.name(f.value.id) + '.set']
+            if isinstance(f, ast.Attribute) and isinstance(f.value, ast.Name) and self.name(f.value.id) in self.p.sems and f.attr == 'locked':
+                return S[self.name(f.value.id) + '.cnt'] <= 0
             if isinstance(f, ast.Attribute) and isinstance(f.value, ast.Name) and self.name(f.value.id) in self.p.queues:
                 q = self.name(f.value.id)
                 if f.attr == 'qsize':
@@ -347,6 +369,29 @@ class Compiler:
                         if isinstance(x, ast.Name):
                             self.p.excvars.add(self.name(x.id))
 
+    # ------------------------------------------------------------------ tests with an effect (sem.acquire(...), event.wait(...))
+    def is_sync_call(self, e):
+        return isinstance(e, ast.Call) and isinstance(e.func, ast.Attribute) and isinstance(e.func.value, ast.Name) \
+            and ((self.name(e.func.value.id) in self.p.sems and e.func.attr == 'acquire')
+                 or (self.name(e.func.value.id) in self.p.events and e.func.attr == 'wait'))
+
+    def branch(self, test, k_true, k_false, ctx, L, label):
+        """entry location of `if test: goto k_true else: goto k_false`; a test that is a synchronisation call is evaluated first"""
+        p, t = self.p, self.t
+        if isinstance(test, ast.UnaryOp) and isinstance(test.op, ast.Not) and self.is_sync_call(test.operand):
+            return self.branch(test.operand, k_false, k_true, ctx, L, label)
+        if self.is_sync_call(test):
+            def cont(name, _k):
+                here = p.newloc(t, f'{label}-test@{L}')
+                p.edge(t, here, k_true, guard=lambda S: S[name] != 0, label=label + '-true', line=L, local=True)
+                p.edge(t, here, k_false, guard=lambda S: S[name] == 0, label=label + '-false', line=L, local=True)
+                return here
+            return self.flat_then(test, None, ctx, L, cont)
+        here = p.newloc(t, f'{label}@{L}')
+        p.edge(t, here, k_true, guard=lambda S, e=test: self.ev(e, S), label=label + '-true', line=L)
+        p.edge(t, here, k_false, guard=lambda S, e=test: z3.Not(self.ev(e, S)), label=label + '-false', line=L)
+        return here
+
     # ------------------------------------------------------------------ statements
     def block(self, stmts, k, ctx):
         """returns entry loc of stmts, continuing at loc k"""
@@ -385,12 +430,9 @@ class Compiler:
         if isinstance(s, ast.Expr) and isinstance(s.value, ast.Constant):
             return k        # docstring
         if isinstance(s, ast.If):
-            here = p.newloc(t, f'if@{L}')
             a = self.block(s.body, k, ctx)
             b = self.block(s.orelse, k, ctx)
-            p.edge(t, here, a, guard=lambda S, e=s.test: self.ev(e, S), label='if-true', line=L)
-            p.edge(t, here, b, guard=lambda S, e=s.test: z3.Not(self.ev(e, S)), label='if-false', line=L)
-            return here
+            return self.branch(s.test, a, b, ctx, L, 'if')
         if isinstance(s, ast.While):
             here = p.newloc(t, f'while@{L}')
             k_end = self.block(s.orelse, k, ctx) if s.orelse else k      # else: runs when the test fails, not after break
@@ -398,6 +440,8 @@ class Compiler:
             body = self.block(s.body, here, ctx2)
             if isinstance(s.test, ast.Constant) and s.test.value in (True, 1):
                 p.edge(t, here, body, label='while-true', line=L)
+            elif self.is_sync_call(s.test) or (isinstance(s.test, ast.UnaryOp) and isinstance(s.test.op, ast.Not) and self.is_sync_call(s.test.operand)):
+                p.edge(t, here, self.branch(s.test, body, k_end, ctx, L, 'while'), label='while-head', line=L, local=True)
             else:
                 p.edge(t, here, body, guard=lambda S, e=s.test: self.ev(e, S), label='while-t', line=L)
                 p.edge(t, here, k_end, guard=lambda S, e=s.test: z3.Not(self.ev(e, S)), label='while-f', line=L)
@@ -450,6 +494,16 @@ class Compiler:
                 ast.copy_location(tr, s)
                 ast.fix_missing_locations(tr)
                 return self.try_(tr, k, ctx)
+            if isinstance(item.context_expr, ast.Name) and self.name(item.context_expr.id) in p.sems and item.optional_vars is None:
+                # with lock: body   ==   lock.acquire(); try: body / finally: lock.release()
+                nm = item.context_expr.id
+                acq = ast.parse(f'{nm}.acquire()').body[0]
+                rel = ast.parse(f'{nm}.release()').body[0]
+                tr = ast.Try(body=s.body, handlers=[], orelse=[], finalbody=[rel])
+                for x in (acq, rel, tr):
+                    ast.copy_location(x, s)
+                    ast.fix_missing_locations(x)
+                return self.stmt(acq, self.try_(tr, k, ctx), ctx)
             if not (isinstance(item.context_expr, ast.Call) and ast.unparse(item.context_expr.func) == 'PoolExecutor'
                     and isinstance(item.optional_vars, ast.Name)):
                 raise Unsupported('with ' + ast.unparse(item.context_expr)[:60])
@@ -656,6 +710,8 @@ class Compiler:
             p.excvars.add(tgt)          # err = e: a copy of a stored exception
         if isinstance(v, ast.Constant) and isinstance(v.value, bool):
             self.declare(tgt, 'bool', v.value)
+        elif self.is_bool_expr(v):
+            self.declare(tgt, 'bool', False)
         else:
             self.declare(tgt, 'int', NONE)
         p.edge(t, here, k, upd=lambda S: {tgt: self.ev(v, S)}, label=f'{tgt}=', line=L)
@@ -738,6 +794,46 @@ class Compiler:
                 if len(va) != 1:
                     raise Unsupported('dill payload without exactly one task argument')
                 return cont(va[0], k)
+            if objname in self.p.sems:
+                cnt = objname + '.cnt'
+                if meth == 'release' and not e.keywords and len(e.args) <= 1:
+                    nrel = 1
+                    if e.args:
+                        if not (isinstance(e.args[0], ast.Constant) and isinstance(e.args[0].value, int)):
+                            raise Unsupported('semaphore.release(n) with a non-constant n')
+                        nrel = e.args[0].value
+                    here = p.newloc(t, f'{objname}.release@{L}')
+                    p.edge(t, here, cont(None, k), upd=lambda S: {cnt: S[cnt] + nrel}, label=f'{objname}.release', line=L)
+                    return here
+                if meth == 'acquire':
+                    blk = const_kw(e, 'blocking', 0, True)
+                    tmo = const_kw(e, 'timeout', 1, None)
+                    timed = (not blk) or (tmo is not None and tmo != -1)
+                    res = self.newtmp()
+                    after = cont(res, k)
+                    here = p.newloc(t, f'{objname}.acquire@{L}')
+                    p.edge(t, here, after, guard=lambda S: S[cnt] > 0, upd=lambda S: {cnt: S[cnt] - 1, res: IV(1)}, label=f'{objname}.acquire', line=L)
+                    if timed:
+                        # a timed / non-blocking acquire gives up whenever no permit is available at that step (time is arbitrary)
+                        p.edge(t, here, after, guard=lambda S: S[cnt] <= 0, upd=lambda S: {res: IV(0)}, label=f'{objname}.acquire-timeout', line=L)
+                    return here
+                raise Unsupported('semaphore.' + meth)
+            if objname in self.p.events:
+                flag = objname + '.set'
+                if meth in ('set', 'clear') and not e.args and not e.keywords:
+                    here = p.newloc(t, f'{objname}.{meth}@{L}')
+                    p.edge(t, here, cont(None, k), upd=lambda S: {flag: z3.BoolVal(meth == 'set')}, label=f'{objname}.{meth}', line=L)
+                    return here
+                if meth == 'wait':
+                    tmo = const_kw(e, 'timeout', 0, None)
+                    res = self.newtmp()
+                    after = cont(res, k)
+                    here = p.newloc(t, f'{objname}.wait@{L}')
+                    p.edge(t, here, after, guard=lambda S: S[flag], upd=lambda S: {res: IV(1)}, label=f'{objname}.wait', line=L)
+                    if tmo is not None:
+                        p.edge(t, here, after, guard=lambda S: z3.Not(S[flag]), upd=lambda S: {res: IV(0)}, label=f'{objname}.wait-timeout', line=L)
+                    return here
+                raise Unsupported('event.' + meth)
             if objname in self.p.queues:
                 # block / timeout (keyword or positional) must be constants.  block=True, timeout=None is the default blocking call.
                 # A timed get raises Empty if nothing arrives in time: time is an arbitrary environment quantity, so the timeout may
@@ -827,9 +923,10 @@ class Compiler:
             here = p.newloc(t, f'exit@{L}')
             N = self.N
             if self.pool_kind in ('thread', 'process'):
-                # shutdown(wait=True): returns when nothing is pending or running (cancelled futures are dropped)
+                # shutdown(wait=True): returns when nothing is pending or running (cancelled futures are dropped); a process pool that
+                # was shut down with wait=False before returns at once ($detached)
                 p.edge(t, here, cont(None, k),
-                       guard=lambda S: z3.And([z3.And(S[f'st[{i}]'] != PENDING, S[f'st[{i}]'] != RUNNING) for i in range(N)]),
+                       guard=lambda S: z3.Or(S['$detached'], z3.And([z3.And(S[f'st[{i}]'] != PENDING, S[f'st[{i}]'] != RUNNING) for i in range(N)])),
                        label='executor.__exit__', line=L)
             elif self.pool_kind == 'mpool':
                 # multiprocessing.Pool.__exit__ == terminate(): outstanding work is discarded, running work killed
@@ -839,6 +936,30 @@ class Compiler:
                 p.edge(t, here, cont(None, k), label='executor.__exit__', line=L)
             else:
                 raise Unsupported('pool kind ' + str(self.pool_kind))
+            return here
+        if meth == 'shutdown' and self.pool_kind in ('thread', 'process'):
+            # concurrent.futures: shutdown(wait=True, *, cancel_futures=False)
+            wait = const_kw(e, 'wait', 0, True)
+            cancel = const_kw(e, 'cancel_futures', None, False)
+            here = p.newloc(t, f'shutdown@{L}')
+            N = self.N
+
+            def upd(S):
+                u = {}
+                if cancel:
+                    u.update({f'st[{i}]': z3.If(S[f'st[{i}]'] == PENDING, IV(CANCELLED), S[f'st[{i}]']) for i in range(N)})
+                if not wait and self.pool_kind == 'process':
+                    # ProcessPoolExecutor.shutdown(wait=False) drops its manager thread handle: a later shutdown(wait=True), also the one of
+                    # __exit__, has nothing left to join and returns at once while the work goes on (CPython 3.9+)
+                    u['$detached'] = z3.BoolVal(True)
+                return u
+            if wait:
+                p.edge(t, here, cont(None, k), upd=upd,
+                       guard=lambda S: z3.Or(S['$detached'], z3.And([z3.And(S[f'st[{i}]'] != PENDING, S[f'st[{i}]'] != RUNNING) for i in range(N)]))
+                       if not cancel else z3.Or(S['$detached'], z3.And([S[f'st[{i}]'] != RUNNING for i in range(N)])),
+                       label='executor.shutdown(wait)', line=L)
+            else:
+                p.edge(t, here, cont(None, k), upd=upd, label='executor.shutdown(nowait)', line=L)
             return here
         if meth == 'terminate':
             here = p.newloc(t, f'terminate@{L}')
